@@ -31,6 +31,7 @@ func resolveDependentFields(
 	parentPackage string,
 	dependencies map[string]string,
 	subdefinition string,
+	resolving []string,
 ) ([]Field, error) {
 	fields := []Field{}
 	for i, line := range strings.Split(subdefinition, "\n") {
@@ -86,25 +87,35 @@ func resolveDependentFields(
 				fieldParentPackage = strings.Split(fieldType, "/")[0]
 			}
 			subdefinition, typeIsPresent := dependencies[fieldType]
+			dependencyName := fieldType
 			switch {
 			case typeIsPresent:
 				break
 			case fieldType == "Header":
-				subdefinition, ok = dependencies["std_msgs/Header"]
+				dependencyName = "std_msgs/Header"
+				subdefinition, ok = dependencies[dependencyName]
 				if !ok {
 					return nil, fmt.Errorf("dependency Header not found")
 				}
 			case !typeIsPresent && !typeIsQualified:
 				qualifiedType := fieldParentPackage + "/" + fieldType
+				dependencyName = qualifiedType
 				subdefinition, ok = dependencies[qualifiedType]
 				if !ok {
 					return nil, fmt.Errorf("dependency %s not found", qualifiedType)
+				}
+			}
+			// a type that (transitively) contains itself has no finite expansion
+			for _, name := range resolving {
+				if name == dependencyName {
+					return nil, fmt.Errorf("type %s is defined recursively", dependencyName)
 				}
 			}
 			recordFields, err = resolveDependentFields(
 				fieldParentPackage,
 				dependencies,
 				subdefinition,
+				append(resolving[:len(resolving):len(resolving)], dependencyName),
 			)
 			if err != nil {
 				return nil, fmt.Errorf("failed to resolve dependent record: %w", err)
@@ -167,7 +178,7 @@ func ParseMessageDefinition(parentPackage string, data []byte) ([]Field, error) 
 		rosType := strings.TrimPrefix(header, "MSG: ")
 		dependencies[rosType] = strings.Join(lines[1:], "\n")
 	}
-	fields, err := resolveDependentFields(parentPackage, dependencies, definition)
+	fields, err := resolveDependentFields(parentPackage, dependencies, definition, nil)
 	if err != nil {
 		return nil, fmt.Errorf("failed to build dependent records: %w", err)
 	}
